@@ -34,6 +34,7 @@ def form_records(b, header, source, options, rng, max_pairs=16, perm_mode="all",
     cmode = "complex" in scalar
     syms = E.object_symbols(header)
     tables = H.parse_form_tables(source)
+    flags = H.parse_integral_flags(source)
     recs, meta = [], []
     for oi, ((kind, sym), uf) in enumerate(zip(syms, b.forms)):
         orc = O.FormOracle(uf, complex_mode=cmode, diagonal=options.get("part") == "diagonal")
@@ -42,6 +43,12 @@ def form_records(b, header, source, options, rng, max_pairs=16, perm_mode="all",
             for k in range(offs[t], offs[t + 1]):
                 ext = H.contract_extents(orc, itype)
                 interior = itype == "interior_facet"
+                fl = flags.get(sym, [])
+                # one permutation code is part of the call for ridge kernels (as in the repository's test_ridge_integral, also on
+                # a single mesh) and for exterior-facet kernels whose descriptor sets needs_facet_permutations (mixed-dimensional)
+                one_perm = itype == "ridge" or (itype == "exterior_facet" and k < len(fl) and bool(fl[k]))
+                if one_perm:
+                    ext = dict(ext, perm=1)
                 data = H.make_data(rng, orc.coord_element, orc.original_coefficients, orc.constants, interior, cmode, "affine")
                 pos = [orc.original_coefficients.index(c) for c in orc.reduced_coefficients]
                 w, _ = H.pack_w(orc.original_coefficients, pos, data, interior, dt)
@@ -64,13 +71,20 @@ def form_records(b, header, source, options, rng, max_pairs=16, perm_mode="all",
                             idx = rng.permutation(len(pp))[:4]
                             pp = [pp[i] for i in sorted(idx)]
                         combos += [(p, q) for q in pp]
+                elif one_perm and itype == "exterior_facet":
+                    combos = [((e, 0), (q, 0)) for e in range(nent) for q in range(H.facet_perm_count(orc.cellname, e))]
+                    if perm_mode != "all" and len(combos) > 3 * nent:
+                        idx = rng.permutation(len(combos))[: 3 * nent]
+                        combos = [combos[i] for i in sorted(idx)]
+                elif one_perm:
+                    combos = [((e, 0), (q, 0)) for e in range(nent) for q in ((0, 1) if O.tdim_of(orc.cellname) == 3 else (0,))]
                 else:
                     combos = [((e, 0), (0, 0)) for e in range(nent)]
                 for ents, perms in combos:
                     recs.append({
                         "obj": oi, "k": k, "scalar": scalar, "A0": np.zeros(ext["A"], dtype=dt), "w": w, "c": c, "x": x,
                         "ent": None if itype == "cell" else list(ents if interior else ents[:1]),
-                        "perm": list(perms) if interior else None, "guard": guard,
+                        "perm": list(perms) if interior else ([perms[0]] if one_perm else None), "guard": guard,
                     })
                     meta.append((oi, itype, ids[k] if k < len(ids) else None, k, ents, perms, ext))
     return recs, meta
